@@ -155,7 +155,10 @@ func VerifK25TupleCondition() {
 	var sRX, sRY, sTX, sTY string
 	if shape == 0 {
 		// request context: nil, or a struct with the slots (and possibly an undeclared key)
-		if vt.ForkBool("reqCtx") {
+		if vt.ParamInt("nilfields", 1) == 1 && vt.ForkBool("reqCtxWithoutFields") {
+			// `"context": {}` decodes to a Struct whose Fields map is nil (present but empty request context)
+			reqCtx = &structpb.Struct{}
+		} else if vt.ForkBool("reqCtx") {
 			reqCtx = &structpb.Struct{Fields: map[string]*structpb.Value{}}
 			kRX, sRX = verifK25Slot("rx", reqCtx.Fields, "x", L)
 			kRY, sRY = verifK25Slot("ry", reqCtx.Fields, "y", L)
@@ -163,7 +166,9 @@ func VerifK25TupleCondition() {
 				reqCtx.Fields["z"] = structpb.NewStringValue("zz")
 			}
 		}
-		if vt.ForkBool("tupleCtx") {
+		if vt.ParamInt("nilfields", 1) == 1 && vt.ForkBool("tupleCtxWithoutFields") {
+			tk.Condition.Context = &structpb.Struct{}
+		} else if vt.ForkBool("tupleCtx") {
 			tk.Condition.Context = &structpb.Struct{Fields: map[string]*structpb.Value{}}
 			kTX, sTX = verifK25Slot("tx", tk.Condition.Context.Fields, "x", L)
 			kTY, sTY = verifK25Slot("ty", tk.Condition.Context.Fields, "y", L)
